@@ -7,12 +7,12 @@
 (*    ToJ; every applicable single-position corruption is rejected; no      *)
 (*    oracle gaps; integer JSON is accepted exactly in range and canonical. *)
 (*  Mode "gen": the schema and the JSON views extracted from the current    *)
-(*    sources (IOEnv.JSCHEMA), every registry type, four canonical values   *)
-(*    each (Val(T, 1..4)); same invariants, and every state is emitted as a *)
+(*    sources (IOEnv.JSCHEMA), every registry type, the canonical values     *)
+(*    Val(T, k), k in Variants; same invariants, and every state is emitted as a *)
 (*    replay case: (type, encoding, every applicable (path, class)).        *)
 EXTENDS JsonDict, TLC, Json, IOUtils
 
-CONSTANTS Mode, Depth
+CONSTANTS Mode, Depth, Variants
 
 \* ---------------- model oracles ----------------
 RECURSIVE PL(_, _)
@@ -165,7 +165,7 @@ Init == /\ phase = 0
                  \/ \E n \in {1, 2, 4, 8, 16}, sg \in {"u", "i"}, neg \in BOOLEAN, base \in 0..2, d \in 0..2, minus \in BOOLEAN :
                       x = [k |-> "int", t |-> [k |-> sg, n |-> n], neg |-> neg, base |-> base, d |-> d, minus |-> minus]
            \/ /\ Mode = "gen"
-              /\ \E nm \in TopNames, k \in 1..4 : x = [k |-> "val", name |-> nm, t |-> JS.top[nm], v |-> Val(JS.top[nm], k)]
+              /\ \E nm \in TopNames, k \in Variants : x = [k |-> "val", name |-> nm, t |-> JS.top[nm], v |-> Val(JS.top[nm], k)]
 Next == phase = 0 /\ phase' = 1 /\ UNCHANGED x
 
 IsVal == phase = 1 /\ x.k = "val"
